@@ -36,7 +36,7 @@ import (
 )
 
 type POp struct {
-	K string `json:"k"` // send|relay|update|freeze|unfreeze|expire|revive|hs|block
+	K string `json:"k"`           // send|relay|update|freeze|unfreeze|expire|revive|hs|block
 	C int    `json:"c,omitempty"` // side 0/1
 	L int    `json:"l,omitempty"` // link 0 (v1) / 1 (v2)
 	P int    `json:"p,omitempty"` // packet selector
@@ -62,12 +62,12 @@ type penv struct {
 	pkts   []*pPkt
 	// handshake progress: a connection handshake machine (new connections over the clients
 	// of link 0) and a channel handshake machine over link 0's OPEN connection
-	connStep, chanStep int
+	connStep, chanStep   int
 	connsDone, chansDone int
-	connA, connB string
-	chanA, chanB string
-	usesNonActive int
-	okBy, failBy  map[string]int
+	connA, connB         string
+	chanA, chanB         string
+	usesNonActive        int
+	okBy, failBy         map[string]int
 }
 
 func (e *penv) key(side int, client string) string { return fmt.Sprintf("%d/%s", side, client) }
